@@ -1,6 +1,11 @@
 from typing import Callable, Optional
 
 
+def _opposite_signs(x: float, y: float) -> bool:
+    # Same as x * y < 0, but the product of two tiny ordinates may underflow to zero.
+    return (x < 0 < y) or (y < 0 < x)
+
+
 class BrentsRootFinder:
     def __init__(
         self,
@@ -18,7 +23,9 @@ class BrentsRootFinder:
         self.fa = f_start
         self.fb = f_end
 
-        assert self.fa * self.fb < 0, "Function root needs to be between a and b"
+        assert _opposite_signs(
+            self.fa, self.fb
+        ), "Function root needs to be between a and b"
 
         # b has to be the better guess
         if abs(self.fa) < abs(self.fb):
@@ -78,7 +85,7 @@ class BrentsRootFinder:
         ), "Something went wrong"
 
         # Update interval
-        if self.fa * ordinate < 0:
+        if _opposite_signs(self.fa, ordinate):
             self.b, self.fb = abscissa, ordinate
         else:
             self.a, self.fa = abscissa, ordinate
